@@ -469,3 +469,175 @@ Proof.
   split; [intros i Hi; apply linspace_step; exact Hi|]. split; [intros Hle x Hx; exact (linspace_between lo hi n x Hle Hx)|].
   reflexivity.
 Qed.
+
+(* ================================================================== audit round: further behaviour *)
+
+(* ---- an integer count is the list of the default abscissae; lists concatenate pointwise *)
+Lemma count_is_list sw coords n :
+  Rdesign_conditions sw coords (StepsNum n) =
+  Rdesign_conditions sw coords (StepsList (Rsteps_of (closed_of R sw coords) (StepsNum n))).
+Proof. reflexivity. Qed.
+Lemma default_is_ten sw coords : Rdesign_conditions sw coords StepsDefault = Rdesign_conditions sw coords (StepsNum 10).
+Proof. reflexivity. Qed.
+Lemma dc_list_app cl l1 l2 : Rdc_closed cl (StepsList (l1 ++ l2)) = Rdc_closed cl (StepsList l1) ++ Rdc_closed cl (StepsList l2).
+Proof. unfold design_conditions_closed. cbn [steps_of]. apply flat_map_app. Qed.
+Lemma dc_list_nil cl : Rdc_closed cl (StepsList []) = [].
+Proof. reflexivity. Qed.
+Lemma small_counts cl : Rsteps_of cl (StepsNum 0) = [] /\ Rsteps_of cl (StepsNum 1) = [Rdefault_lower cl].
+Proof. split; reflexivity. Qed.
+
+(* ---- duplicated consecutive vertices (zero-length segments) change nothing *)
+Lemma segments_app {F} (a : list (F * F)) p b : segments (a ++ p :: b) = segments (a ++ [p]) ++ segments (p :: b).
+Proof.
+  induction a as [|q a IH]; [reflexivity|]. destruct a as [|r a].
+  - cbn [app]. change (segments (q :: p :: b)) with ((q, p) :: segments (p :: b)). reflexivity.
+  - change ((q :: r :: a) ++ p :: b) with (q :: (r :: a) ++ p :: b).
+    change ((r :: a) ++ p :: b) with (r :: (a ++ p :: b)) in *.
+    change (segments (q :: r :: a ++ p :: b)) with ((q, r) :: segments (r :: a ++ p :: b)).
+    rewrite IH. reflexivity.
+Qed.
+
+Lemma degenerate_left p s2 : Rpair (p, p) s2 = [].
+Proof. apply pair_result_parallel. destruct p as [x y], s2 as [[cx cy] [dx dy]]. cbn [det]. ring. Qed.
+Lemma degenerate_right s1 p : Rpair s1 (p, p) = [].
+Proof. apply pair_result_parallel. destruct p as [x y], s1 as [[ax ay] [bx by_]]. cbn [det]. ring. Qed.
+
+Lemma duplicate_vertex_left a p b c2 : Rintersection (a ++ p :: p :: b) c2 = Rintersection (a ++ p :: b) c2.
+Proof.
+  unfold intersection. rewrite (segments_app a p (p :: b)), (segments_app a p b).
+  change (segments (p :: p :: b)) with ((p, p) :: segments (p :: b)).
+  rewrite !flat_map_app. f_equal. cbn [flat_map].
+  assert (E : flat_map (fun s2 => Rpair (p, p) s2) (segments c2) = []).
+  { induction (segments c2) as [|s l IH]; [reflexivity|]. cbn [flat_map]. rewrite degenerate_left, IH. reflexivity. }
+  rewrite E. reflexivity.
+Qed.
+
+Lemma duplicate_vertex_right c1 a p b : Rintersection c1 (a ++ p :: p :: b) = Rintersection c1 (a ++ p :: b).
+Proof.
+  unfold intersection. apply flat_map_ext. intros s1.
+  rewrite (segments_app a p (p :: b)), (segments_app a p b).
+  change (segments (p :: p :: b)) with ((p, p) :: segments (p :: b)).
+  rewrite !flat_map_app. f_equal. cbn [flat_map]. rewrite degenerate_right. reflexivity.
+Qed.
+
+(* ---- the routine is symmetric in its two curves (as a set of points) *)
+Lemma nonparallel_sym s1 s2 : nonparallel s1 s2 -> nonparallel s2 s1.
+Proof.
+  unfold nonparallel. destruct s1 as [[ax ay] [bx by_]], s2 as [[cx cy] [dx dy]]. cbn [det]. intros H E. apply H. lra.
+Qed.
+Lemma intersection_sym c1 c2 p : In p (Rintersection c1 c2) <-> In p (Rintersection c2 c1).
+Proof.
+  rewrite !intersection_spec. split; intros [s1 [s2 [H1 [H2 [H3 [H4 H5]]]]]]; exists s2, s1; repeat split; auto; apply nonparallel_sym; exact H3.
+Qed.
+
+(* ---- abscissae outside the extent never cross; abscissae strictly inside always do (general position) *)
+Lemma crossing_in_extent cl x y : crossing cl x y -> Rlmin (map fst cl) <= x <= Rlmax (map fst cl).
+Proof.
+  intros [s [Hs [_ [t [Ht [Hx _]]]]]]. cbn [fst snd] in Hx.
+  destruct (segments_vertices cl s Hs) as [Ha Hb].
+  pose proof (lmin_le (map fst cl) _ (in_map fst _ _ Ha)). pose proof (lmax_ge (map fst cl) _ (in_map fst _ _ Ha)).
+  pose proof (lmin_le (map fst cl) _ (in_map fst _ _ Hb)). pose proof (lmax_ge (map fst cl) _ (in_map fst _ _ Hb)).
+  pose proof (between (fst (fst s)) (fst (snd s)) t Ht) as B. rewrite <- Hx in B.
+  destruct (fmin_cases (fst (fst s)) (fst (snd s))) as [[_ E1]|[_ E1]], (fmax_cases (fst (fst s)) (fst (snd s))) as [[_ E2]|[_ E2]];
+    rewrite E1, E2 in B; lra.
+Qed.
+
+Lemma outside_extent_no_crossing cl x : x < Rlmin (map fst cl) \/ Rlmax (map fst cl) < x -> ~ exists y, crossing cl x y.
+Proof. intros H [y C]. apply crossing_in_extent in C. lra. Qed.
+
+(* discrete intermediate value: a polyline with a vertex left of x and a vertex right of x has an edge that straddles x *)
+Lemma straddle (x : R) : forall (l : list rpt),
+  (exists v, In v l /\ fst v < x) -> (exists v, In v l /\ x < fst v) ->
+  exists s, In s (segments l) /\ ((fst (fst s) < x /\ x <= fst (snd s)) \/ (x <= fst (fst s) /\ fst (snd s) < x) \/
+                                  (fst (fst s) <= x /\ x < fst (snd s)) \/ (x < fst (fst s) /\ fst (snd s) <= x)).
+Proof.
+  induction l as [|a l IH]; intros [v [Hv Lv]] [w [Hw Lw]]; [destruct Hv|].
+  destruct l as [|b l]; [destruct Hv as [<-|[]], Hw as [<-|[]]; lra|].
+  change (segments (a :: b :: l)) with ((a, b) :: segments (b :: l)).
+  destruct (Rlt_dec (fst a) x) as [A|A]; [destruct (Rlt_dec (fst b) x) as [B|B]|destruct (Rlt_dec x (fst b)) as [B|B]].
+  - (* a, b left: a vertex right of x is in b :: l *)
+    destruct IH as [s [Hs C]]; [exists b; split; [left; reflexivity|exact B]| |exists s; split; [right; exact Hs|exact C]].
+    destruct Hw as [<-|Hw]; [lra|]. exists w. split; assumption.
+  - exists (a, b). split; [left; reflexivity|]. cbn [fst snd]. left. split; lra.
+  - destruct (Rlt_dec x (fst a)) as [A'|A'].
+    + (* a right, b right *)
+      destruct IH as [s [Hs C]]; [|exists b; split; [left; reflexivity|exact B]|exists s; split; [right; exact Hs|exact C]].
+      destruct Hv as [<-|Hv]; [lra|]. exists v. split; assumption.
+    + (* fst a = x, b right of x *)
+      exists (a, b). split; [left; reflexivity|]. cbn [fst snd]. right. right. left. split; lra.
+  - destruct (Rlt_dec x (fst a)) as [A'|A'].
+    + exists (a, b). split; [left; reflexivity|]. cbn [fst snd]. right. right. right. split; lra.
+    + (* fst a = x, fst b <= x *)
+      destruct (Rlt_dec (fst b) x) as [B'|B'].
+      * exists (a, b). split; [left; reflexivity|]. cbn [fst snd]. right. left. split; lra.
+      * (* both equal x: recurse *)
+        destruct IH as [s [Hs C]]; [| |exists s; split; [right; exact Hs|exact C]].
+        -- destruct Hv as [<-|Hv]; [lra|]. exists v. split; assumption.
+        -- destruct Hw as [<-|Hw]; [lra|]. exists w. split; assumption.
+Qed.
+
+Lemma inside_extent_crossing cl x :
+  (exists v, In v cl /\ fst v < x) -> (exists v, In v cl /\ x < fst v) -> exists y, crossing cl x y.
+Proof.
+  intros HL HR. destruct (straddle x cl HL HR) as [[[ax ay] [bx by_]] [Hs C]]. cbn [fst snd] in C.
+  assert (NV : ax <> bx) by (destruct C as [C|[C|[C|C]]]; lra).
+  exists (ay + (x - ax) / (bx - ax) * (by_ - ay)). exists ((ax, ay), (bx, by_)). split; [exact Hs|]. split; [exact NV|].
+  exists ((x - ax) / (bx - ax)). cbn [fst snd]. split; [|split; [field; lra|reflexivity]].
+  destruct (Rlt_dec ax bx) as [L|L].
+  - assert (P : 0 < bx - ax) by lra. split.
+    + apply Rmult_le_pos; [destruct C as [C|[C|[C|C]]]; lra|apply Rlt_le, Rinv_0_lt_compat; exact P].
+    + apply (Rmult_le_reg_r (bx - ax)); [exact P|]. unfold Rdiv. rewrite Rmult_assoc, Rinv_l by lra. destruct C as [C|[C|[C|C]]]; lra.
+  - assert (P : 0 < ax - bx) by lra.
+    assert (E : (x - ax) / (bx - ax) = (ax - x) / (ax - bx)) by (field; split; lra). rewrite E. split.
+    + apply Rmult_le_pos; [destruct C as [C|[C|[C|C]]]; lra|apply Rlt_le, Rinv_0_lt_compat; exact P].
+    + apply (Rmult_le_reg_r (ax - bx)); [exact P|]. unfold Rdiv. rewrite Rmult_assoc, Rinv_l by lra. destruct C as [C|[C|[C|C]]]; lra.
+Qed.
+
+(* ---- without vertical edges the design condition tops EVERY polygon point at its abscissa *)
+Lemma top_of_polygon cl xs r q : (forall s, In s (segments cl) -> nonvertical s) -> dc_rel cl xs r -> In q r ->
+  forall y, on_polyline cl (fst q, y) -> y <= snd q.
+Proof.
+  intros NV H I y [s [Hs O]]. destruct (dc_rel_in cl xs r q H I) as [_ [_ [_ M]]]. apply M. exists s. auto.
+Qed.
+
+Lemma minl_in d l : In (Rminl d l) (d :: l).
+Proof.
+  revert d. induction l as [|a l IH]; intros d; cbn [minl fold_left]; [left; reflexivity|].
+  fold (Rminl (Rfmin d a) l). destruct (IH (Rfmin d a)) as [E|H].
+  - rewrite <- E. destruct (fmin_cases d a) as [[_ ->]|[_ ->]]; [left|right; left]; reflexivity.
+  - right. right. exact H.
+Qed.
+
+(* every abscissa strictly inside the extent crosses the polygon: it is never omitted (in particular
+   none of the default abscissae is, when the polygon has a positive width) *)
+Lemma strictly_inside_crossing cl x : Rlmin (map fst cl) < x < Rlmax (map fst cl) -> exists y, crossing cl x y.
+Proof.
+  intros [H1 H2]. destruct (map fst cl) as [|a l] eqn:E; [unfold lmin, lmax, zero in *; lra|].
+  apply inside_extent_crossing.
+  - pose proof (minl_in a l) as I. change (Rminl a l) with (Rlmin (a :: l)) in I. rewrite <- E in I.
+    apply in_map_iff in I. destruct I as [v [Ev Iv]]. exists v. split; [exact Iv|]. rewrite Ev. rewrite E. exact H1.
+  - pose proof (maxl_in a l) as I. change (Rmaxl a l) with (Rlmax (a :: l)) in I. rewrite <- E in I.
+    apply in_map_iff in I. destruct I as [v [Ev Iv]]. exists v. split; [exact Iv|]. rewrite Ev. rewrite E. exact H2.
+Qed.
+
+Lemma defaults_strictly_inside cl x n : Rlmin (map fst cl) < Rlmax (map fst cl) ->
+  In x (Rsteps_of cl (StepsNum n)) -> Rlmin (map fst cl) < x < Rlmax (map fst cl).
+Proof.
+  intros W I. rewrite steps_num in I. destruct (default_limits cl) as [E1 E2]. cbv zeta in E1, E2.
+  assert (L : Rdefault_lower cl <= Rdefault_upper cl) by (rewrite E1, E2; lra).
+  pose proof (linspace_between _ _ n x L I). rewrite E1, E2 in H. lra.
+Qed.
+
+(* default / counted abscissae are all present in the result *)
+Lemma defaults_all_present cl n :
+  Rlmin (map snd cl) < Rlmax (map snd cl) \/ Rlmax (map snd cl) <> 0 -> Rlmin (map fst cl) < Rlmax (map fst cl) ->
+  map fst (Rdc_closed cl (StepsNum n)) = Rsteps_of cl (StepsNum n).
+Proof.
+  intros Hy Hx. pose proof (design_conditions_rel cl (StepsNum n) Hy) as H.
+  assert (A : forall x, In x (Rsteps_of cl (StepsNum n)) -> exists y, crossing cl x y).
+  { intros x I. apply strictly_inside_crossing. apply (defaults_strictly_inside cl x n Hx I). }
+  revert H A. generalize (Rsteps_of cl (StepsNum n)) (Rdc_closed cl (StepsNum n)). intros xs r H.
+  induction H as [|x xs r Hn Hr IH|x xs y r Hc Hm Hr IH]; intros A; [reflexivity| |].
+  - exfalso. apply Hn. apply A. left. reflexivity.
+  - cbn [map fst]. f_equal. apply IH. intros x' I. apply A. right. exact I.
+Qed.
